@@ -136,7 +136,7 @@ def make_read(rng, k, ads, C, side=1):
         if ad.get("linked"):
             f, b = parts
             fo = mutate(rng, f, rng.choice((0, 0, 1))) if rng.random() < 0.8 else ""
-            bo = mutate(rng, b, rng.choice((0, 0, 1)))[: rng.randint(min(3, len(b)), len(b))] if rng.random() < 0.7 else ""
+            bo = mutate(rng, b, rng.choice((0, 0, 1)))[: rng.randint(min(3, len(b)), len(b))] if rng.random() < (0.4 if C.get("_onlyfront") else 0.7) else ""
             seq = fo + body + bo + "".join(rng.choice("ACGT") for _ in range(rng.choice((0, 0, 3))))
             if rng.random() < 0.15:
                 seq = f                      # the 5' part is the whole read: nothing is left for the 3' part
@@ -156,6 +156,12 @@ def make_read(rng, k, ads, C, side=1):
                 other = pick(rng, ads)
                 o2 = mutate(rng, adapter_seqs(other)[-1], rng.choice((0, 1)))
                 seq = (seq + o2) if other.get("opt", "a") != "g" else (o2 + seq)
+        if C.get("revcomp") and C.get("paired") and rng.random() < (0.5 if C.get("action") in ("mask", "lowercase") else 0.3):
+            # a partial occurrence of an adapter of the other mate: a hit in the orientation that may not be chosen
+            others = [a for a in (C.get("ads2") if side == 1 else C.get("ads1")) or [] if not a.get("linked") and a.get("opt") == "a"]
+            if others:
+                o = pick(rng, others)["seq"]
+                seq = seq + o[: rng.randint(min(3, len(o)), min(7, len(o)))]
         if C.get("revcomp") and rng.random() < 0.5:
             seq = GR.revcomp(seq)
             if C.get("_repeat") and not ad.get("linked") and rng.random() < 0.6:
@@ -201,8 +207,9 @@ def make_read(rng, k, ads, C, side=1):
 SCENARIOS = {
     "C03": [dict(indexed_n=True, indexed_equal=True, action="mask", times=1), dict(indexed_n=True, indexed_equal=True, action="lowercase", times=1),
             dict(indexed_n=True, action="retain", times=1), dict(indexed_n=True, action="mask", times=2),
-            dict(paired=True, revcomp=True, action="mask"), dict(paired=True, revcomp=True, action="lowercase"),
-            dict(linked=True, action="lowercase"), dict(linked=True, action="retain"), dict(action="crop", error_rate=0.2),
+            dict(paired=True, revcomp=True, action="mask"), dict(paired=True, revcomp=True, action="mask", n_ads=2, times=1), dict(paired=True, revcomp=True, action="lowercase"),
+            dict(linked=True, action="lowercase"), dict(linked=True, action="retain"),
+            dict(linked=True, back_optional=True, action="lowercase", times=1), dict(linked=True, back_optional=True, action="lowercase", times=2, n_ads=2), dict(action="crop", error_rate=0.2),
             dict(paired=True, pairads=True, action="crop"), dict(paired=True, pairads=True, action="mask"),
             dict(times=3, action="mask"), dict(times=2, action="lowercase"), dict(revcomp=True, action="retain"),
             dict(action="none", times=2), dict(fmt="fasta", action="mask")],
@@ -308,6 +315,21 @@ def _random_config(rng, focus, S):
             if extra[0].get("linked"):
                 ads = extra + ads[1:] if len(ads) > 1 else extra + make_adapters(rng, f, 1, 1, False, named, back_only=True)
                 break
+    if S.get("back_optional"):
+        # -a FRONT...BACK with a regular 3' part: the 3' part is optional, reads with the 5' part only are trimmed
+        for a in ads:
+            if a.get("linked"):
+                fpart, bpart = a["linked"]
+                fpart["opt"] = bpart["opt"] = "a"
+                fpart.pop("opt_render", None)
+                if fpart.get("restr") == "anchor":
+                    fpart["opt_render"] = "g"
+                bpart["restr"] = None
+                for x in (fpart, bpart):
+                    if x.get("params"):
+                        x["params"] = ";".join(t for t in x["params"].split(";") if t not in ("required", "optional")) or None
+                        if not x["params"]:
+                            x.pop("params")
     if S.get("tie_order"):
         # equally long adapters of different kinds, at most one anchored 5' and one anchored 3' (so that no
         # index is built even when indexing is allowed): full occurrences tie on score and errors
@@ -397,6 +419,8 @@ def _random_config(rng, focus, S):
             C["_repeat"] = True
         if S.get("dimers"):
             C["_dimers"] = True
+        if S.get("back_optional"):
+            C["_onlyfront"] = True
         if S.get("_embed"):
             C["_embed"] = S["_embed"]
         if S.get("indexed_n"):
